@@ -17,7 +17,7 @@ static unsigned char *last_s4 = NULL; static int last_len = 0, last_flag = 0, la
 
 void codec_reset(void)
    {
-   if (dec_dts) bufr_free_dataset(dec_dts);
+   if (dec_dts && !bvp_poisoned) bufr_free_dataset(dec_dts);
    dec_dts = NULL;
    }
 BUFR_Dataset *bvp_dec_dts(void) { return dec_dts; }
